@@ -1,1 +1,269 @@
 // Suites that need access to items private to this module (feature ipa-verif, test builds only).
+//
+// ---------------------------------------------------------------------------------------------
+// C20 — h2h / s2s endpoints refuse unauthenticated callers. `include!`d as
+// `crate::net::server::ipa_verif_hook`: sees `IpaHttpServer.router`, `ClientIdentity`,
+// `SetClientIdentityFromHeader`, `SetClientIdentityFromCertificate`.
+//
+// Request grammar
+//   c20.req <mpc|shard> <group> <METHOD> <path?query> <none|helper|shard|both> <body:-|json|junk>
+//        one request through the REAL router of a real `IpaHttpServer` (`TestServer`), with the
+//        given `ClientIdentity` extension(s) attached; `group` (top|query|h2h|s2s) is the router
+//        function the translator found the route in (used by the oracle only).
+//        -> 401 | 404 | 405 | pass          (pass = the handler or its extractors answered)
+//   c20.ident <helper|shard> <tls|plain> <cert:none|0|1|2> <header:none|bad|<id string>>
+//        the identity layers the corresponding `start_on` arm installs, around a probe service
+//        -> ext:none | ext:<index> | rejected
+// ---------------------------------------------------------------------------------------------
+pub mod c20 {
+    use std::{convert::Infallible, sync::Arc};
+
+    use axum::{body::Body, response::IntoResponse};
+    use hyper::{Request, StatusCode};
+    use tower::{Service, ServiceExt};
+
+    use super::super::{ClientIdentity, SetClientIdentityFromCertificate, SetClientIdentityFromHeader};
+    use crate::{
+        helpers::{HelperIdentity, HelperResponse, RequestHandler, TransportIdentity, make_owned_handler},
+        ipa_verif::proto::*,
+        net::{ConnectionFlavor, Helper, Shard, test::{TestServer, TestServerBuilder}},
+        sharding::ShardIndex,
+    };
+
+    fn class(s: StatusCode) -> String {
+        match s.as_u16() {
+            401 => "401".into(),
+            404 => "404".into(),
+            405 => "405".into(),
+            _ => "pass".into(),
+        }
+    }
+
+    fn ok_handler<I: TransportIdentity>() -> Arc<dyn RequestHandler<I>> {
+        make_owned_handler(|req, _body| {
+            use crate::helpers::routing::RouteId;
+            let resp = match req.route {
+                RouteId::ReceiveQuery => HelperResponse::from(crate::helpers::query::PrepareQuery {
+                    query_id: crate::protocol::QueryId,
+                    config: crate::helpers::query::QueryConfig::new(
+                        crate::helpers::query::QueryType::TestMultiply,
+                        crate::ff::FieldType::Fp31,
+                        1,
+                    )
+                    .unwrap(),
+                    roles: crate::helpers::RoleAssignment::new(HelperIdentity::make_three()),
+                }),
+                RouteId::QueryStatus => HelperResponse::from(crate::query::QueryStatus::Running),
+                RouteId::KillQuery => HelperResponse::from(crate::query::QueryKilled(crate::protocol::QueryId)),
+                _ => HelperResponse::ok(),
+            };
+            futures::future::ready(Ok(resp))
+        })
+    }
+
+    fn body_of(kind: &str) -> (Body, Option<&'static str>) {
+        match kind {
+            "-" => (Body::empty(), None),
+            "json" => (
+                Body::from(r#"{"roles":["A","B","C"]}"#),
+                Some("application/json"),
+            ),
+            "junk" => (Body::from(vec![0xffu8; 37]), Some("application/octet-stream")),
+            _ => panic!("harness: unknown body kind {kind}"),
+        }
+    }
+
+    fn build_req(method: &str, path: &str, ident: &str, body: &str) -> Request<Body> {
+        let (b, ct) = body_of(body);
+        let mut rb = Request::builder().method(method).uri(path);
+        if let Some(ct) = ct {
+            rb = rb.header("content-type", ct);
+        }
+        if ident == "helper" || ident == "both" {
+            rb = rb.extension(ClientIdentity(HelperIdentity::TWO));
+        }
+        if ident == "shard" || ident == "both" {
+            rb = rb.extension(ClientIdentity(ShardIndex::from(1u32)));
+        }
+        rb.body(b).unwrap()
+    }
+
+    async fn req_on(server: &str, method: &str, path: &str, ident: &str, body: &str) -> String {
+        let req = build_req(method, path, ident, body);
+        let resp = match server {
+            "mpc" => {
+                let ts = TestServerBuilder::<Helper>::default()
+                    .with_request_handler(ok_handler())
+                    .build()
+                    .await;
+                ts.server.router.clone().oneshot(req).await.unwrap()
+            }
+            "shard" => {
+                let ts = TestServerBuilder::<Shard>::default()
+                    .with_request_handler(ok_handler())
+                    .build()
+                    .await;
+                ts.server.router.clone().oneshot(req).await.unwrap()
+            }
+            _ => panic!("harness: unknown server {server}"),
+        };
+        class(resp.status())
+    }
+
+    async fn ident_probe<F: ConnectionFlavor>(tls: bool, cert: &str, header: &str, ids: &[F::Identity]) -> String
+    where
+        F::Identity: PartialEq,
+    {
+        let probe = tower::service_fn(|req: Request<Body>| async move {
+            let r = match req.extensions().get::<ClientIdentity<F::Identity>>() {
+                None => "ext:none".to_string(),
+                Some(ClientIdentity(id)) => format!("ext:{}", id.as_index()),
+            };
+            Ok::<_, Infallible>((StatusCode::OK, r).into_response())
+        });
+        let mut rb = Request::builder().method("GET").uri("/probe");
+        match header {
+            "none" => {}
+            "bad" => rb = rb.header(F::identity_header(), "not-an-identity"),
+            v => rb = rb.header(F::identity_header(), v),
+        }
+        let req = rb.body(Body::empty()).unwrap();
+        let resp = if tls {
+            // the (false, _) arms of start_on: ClientCertRecognizingAcceptor wraps the service of every
+            // accepted connection in SetClientIdentityFromCertificate; no header layer
+            let id = match cert {
+                "none" => None,
+                k => Some(ClientIdentity(ids[k.parse::<usize>().unwrap()])),
+            };
+            let mut svc = SetClientIdentityFromCertificate::<_, F> { inner: probe, id };
+            svc.call(req).await.unwrap()
+        } else {
+            // the (true, _) arms: plain TCP (no certificate exists), header layer installed
+            let mut svc = SetClientIdentityFromHeader::<_, F>::new(probe);
+            svc.call(req).await.unwrap()
+        };
+        if resp.status() != StatusCode::OK {
+            return "rejected".into();
+        }
+        let bytes = axum::body::to_bytes(resp.into_body(), 1 << 16).await.unwrap();
+        String::from_utf8_lossy(&bytes).to_string()
+    }
+
+    pub fn exec(req: &str) -> String {
+        let t: Vec<String> = req.split(' ').map(str::to_string).collect();
+        let r = match t[0].as_str() {
+            "c20.req" => block_on_timeout(30, async move { req_on(&t[1], &t[3], &t[4], &t[5], &t[6]).await }),
+            "c20.ident" => block_on_timeout(30, async move {
+                let tls = t[2] == "tls";
+                match t[1].as_str() {
+                    "helper" => ident_probe::<Helper>(tls, &t[3], &t[4], &HelperIdentity::make_three()).await,
+                    "shard" => {
+                        let ids = [ShardIndex::from(0u32), ShardIndex::from(1u32), ShardIndex::from(2u32)];
+                        ident_probe::<Shard>(tls, &t[3], &t[4], &ids).await
+                    }
+                    f => panic!("harness: unknown flavor {f}"),
+                }
+            }),
+            _ => panic!("harness: unknown request {req}"),
+        };
+        r.unwrap_or_else(|e| e)
+    }
+
+    /// (server, group, method, path template) — read from the translator's output of THIS run, so
+    /// that every extracted route is exercised; falls back to the list at the time of writing.
+    fn route_table() -> Vec<(String, String, String, String)> {
+        let fallback = || -> Vec<(String, String, String, String)> {
+            [
+                ("mpc", "top", "GET", "/echo"), ("mpc", "top", "GET", "/metrics"),
+                ("mpc", "query", "POST", "/query"), ("mpc", "query", "POST", "/query/:query_id/input"),
+                ("mpc", "query", "GET", "/query/:query_id"), ("mpc", "query", "POST", "/query/:query_id/kill"),
+                ("mpc", "query", "GET", "/query/:query_id/complete"),
+                ("mpc", "h2h", "POST", "/query/:query_id/step/*step"), ("mpc", "h2h", "POST", "/query/:query_id"),
+                ("shard", "top", "GET", "/echo"),
+                ("shard", "s2s", "POST", "/query/:query_id/step/*step"), ("shard", "s2s", "POST", "/query/:query_id"),
+                ("shard", "s2s", "GET", "/query/:query_id/complete"), ("shard", "s2s", "GET", "/query/:query_id/status-match"),
+            ]
+            .iter()
+            .map(|(a, b, c, d)| (a.to_string(), b.to_string(), c.to_string(), d.to_string()))
+            .collect()
+        };
+        let Ok(out) = std::env::var("VERIF_OUT") else { return fallback() };
+        let path = std::path::Path::new(&out).parent().map(|p| p.join("extract.json"));
+        let Some(text) = path.and_then(|p| std::fs::read_to_string(p).ok()) else { return fallback() };
+        let Ok(v) = serde_json::from_str::<serde_json::Value>(&text) else { return fallback() };
+        let Some(rows) = v["items"]["routes.table"]["value"].as_array() else { return fallback() };
+        rows.iter()
+            .map(|r| {
+                let g = |k: &str| r[k].as_str().unwrap_or("").to_string();
+                (g("server"), g("group"), g("method"), g("path"))
+            })
+            .collect()
+    }
+
+    const QS: &str = "?size=1&field_type=fp31&query_type=test-multiply";
+
+    pub fn generate(_rng: &mut Rng, _thorough: bool) -> Vec<String> {
+        let mut v = Vec::new();
+        for (server, group, method, tpl) in route_table() {
+            let mut paths: Vec<String> = Vec::new();
+            let fill = |qid: &str, step: &str| tpl.replace(":query_id", qid).replace("*step", step);
+            let base = fill("0", "protocol/alpha");
+            paths.push(base.clone());
+            paths.push(format!("{base}{QS}"));
+            if tpl.contains("status-match") {
+                paths.push(format!("{base}?status=running"));
+                paths.push(format!("{base}?status=bogus"));
+            }
+            if tpl.contains(":query_id") {
+                paths.push(fill("7", "protocol/alpha"));
+                paths.push(fill("%00", "x"));
+                paths.push(format!("{}{QS}", fill("00", "a/b/c/d")));
+            }
+            if tpl.contains("*step") {
+                paths.push(fill("0", "x"));
+            }
+            paths.dedup();
+            for p in &paths {
+                for ident in ["none", "helper", "shard", "both"] {
+                    for body in ["-", "json", "junk"] {
+                        v.push(format!("c20.req {server} {group} {method} {p} {ident} {body}"));
+                    }
+                }
+            }
+        }
+        // paths that match no route, and unregistered methods on open routes
+        for server in ["mpc", "shard"] {
+            for (m, p) in [("GET", "/"), ("GET", "/query/0/unknown"), ("POST", "/query/0/step"), ("GET", "/query/0/step/a/b"),
+                           ("POST", "/echo"), ("GET", "/nothing/here"), ("POST", "/query/0/complete/extra")] {
+                for ident in ["none", "both"] {
+                    v.push(format!("c20.req {server} none {m} {p} {ident} -"));
+                }
+            }
+        }
+        // identity derivation
+        for flavor in ["helper", "shard"] {
+            let good: [&str; 3] = if flavor == "helper" { ["A", "B", "C"] } else { ["0", "1", "2"] };
+            let mut headers = vec!["none", "bad", "", "H1", "-1", "a", "4294967296"];
+            headers.extend(good);
+            for arm in ["tls", "plain"] {
+                for cert in ["none", "0", "1", "2"] {
+                    if arm == "plain" && cert != "none" {
+                        continue; // no certificate exists on a plain TCP connection
+                    }
+                    for h in &headers {
+                        if h.is_empty() {
+                            continue;
+                        }
+                        v.push(format!("c20.ident {flavor} {arm} {cert} {h}"));
+                    }
+                }
+            }
+        }
+        v
+    }
+}
+
+#[test]
+fn verif_c20_http() {
+    crate::ipa_verif::proto::run_suite("c20_http", c20::generate, c20::exec);
+}
